@@ -1,10 +1,23 @@
 #!/bin/sh
-# coqmake.sh <target...> — the ONLY way to build Coq files in /verif/coq while several people work in
-# the tree: takes the same lock as ./check, regenerates _CoqProject/Makefile, runs make -j16.
-# e.g.  tools/coqmake.sh Properties/C17.vo Extract/ExC17.vo      (TAIL=200 for more output)
-cd /verif/coq || exit 2
-mkdir -p ../.work
-exec 9>>../.work/coq.lock
-flock -x 9
-sh mkproject.sh
-timeout "${COQ_TIMEOUT:-1500}" make -j16 "$@" 2>&1 | tail -n "${TAIL:-60}"
+# coqmake.sh <target...> — the ONLY way to build Coq files while several people work in /verif/coq.
+#   COQ_PRIV=C17 tools/coqmake.sh Properties/C17.vo     proof iteration: the .v files of /verif/coq are mirrored
+#        into a PRIVATE build dir /verif/.work/priv/C17/coq and built there (no lock, nobody disturbed;
+#        extraction output lands in /verif/.work/priv/C17/ocaml/gen/)
+#   tools/coqmake.sh Properties/C17.vo Extract/ExC17.vo  integration: builds in /verif/coq itself under the
+#        lock shared with ./check (do this before ./check, not in your edit loop)
+# TAIL=200 for more output, COQ_TIMEOUT=seconds.
+mkdir -p /verif/.work
+if [ -n "${COQ_PRIV:-}" ]; then
+  d=/verif/.work/priv/$COQ_PRIV
+  mkdir -p "$d/coq" "$d/ocaml/gen"
+  rsync -a --delete --include='*/' --include='*.v' --include='mkproject.sh' --exclude='*' /verif/coq/ "$d/coq/"
+  cd "$d/coq" || exit 2
+  sh mkproject.sh
+  timeout "${COQ_TIMEOUT:-1500}" make -j6 "$@" 2>&1 | tail -n "${TAIL:-60}"
+else
+  cd /verif/coq || exit 2
+  exec 9>>../.work/coq.lock
+  flock -x 9
+  sh mkproject.sh
+  timeout "${COQ_TIMEOUT:-1500}" make -j16 "$@" 2>&1 | tail -n "${TAIL:-60}"
+fi
